@@ -51,11 +51,41 @@ class _Branch:
 
     @property
     def repository(self):
+        outer = self
+
+        class Rev:
+            def __init__(self, parent_ids):
+                self.parent_ids = parent_ids
+
         class Repo:
             @staticmethod
             def has_revision(rev_id):
                 return True
+
+            @staticmethod
+            def get_revision(rev_id):
+                return Rev(list(outer.parents_of(rev_id)))
+
+            @staticmethod
+            def get_parent_map(keys):
+                keys = list(keys)
+
+                class PM:               # a parent map keyed by identity (the ids carry symbolic numbers: not hashable)
+                    def __contains__(self, k):
+                        return any(k is o for o in keys)
+
+                    def __getitem__(self, k):
+                        return tuple(outer.parents_of(k))
+                return PM()
+
+            @staticmethod
+            def lock_read():
+                import contextlib
+                return contextlib.nullcontext()
         return Repo
+
+    def parents_of(self, rev_id):
+        raise AssertionError("the parents of %r were asked for" % (rev_id,))
 
 
 def _resolve(cx, R, spec, branch):
@@ -146,6 +176,37 @@ def ob_dotted(cx):
     cx.require(got.revno is None and got.rev_id[0] == "dotted", "dotted specifier did not resolve through the dotted map")
     cx.observe("dotted", b.dotted)
     cx.cover("dotted")
+
+
+def ob_before_merged(cx):
+    """before:revno:a.b.c / before:revid-like specifiers on a MERGED revision (no mainline number): the revision before it
+    is its left-hand parent - the first of its parents, however many it has - through in_history and as_revision_id."""
+    R = cx.mod(RS)
+    k = cx.choose("components", 2, 3)
+    parts = tuple(cx.int("c%d" % i, 0, cx.p("maxn")) for i in range(k))
+    spec = fmt("before:revno:" + ".".join(["%d"] * k), parts)
+    nparents = cx.choose("nparents", 0, 3)
+    b = _Branch(cx, 5)
+    asked = []
+
+    def parents_of(rev_id):
+        asked.append(rev_id)
+        return [("parent", i) for i in range(nparents)]
+    b.parents_of = parents_of
+    got = _resolve(cx, R, spec, b)
+    cx.require(got != "invalid", "before: on a merged revision rejected")
+    cx.require(len(b.dotted) >= 1 and all(cx.truth(a == c) for a, c in zip(b.dotted[0], parts)), "wrong dotted number looked up")
+    cx.require(all(a[0] == "dotted" for a in asked), "parents of another revision than the named one were used")
+    want = ("parent", 0) if nparents else b"null:"
+    cx.require(got.rev_id == want and got.revno is None,
+               "before:<merged revision> names %r, its left-hand parent is %r" % (got.rev_id, want))
+    if nparents:
+        other = R.RevisionSpec.from_string(spec).as_revision_id(b)
+        cx.require(other == want, "as_revision_id and in_history disagree: %r / %r" % (other, got.rev_id))
+    if nparents >= 2:
+        cx.cover("merge_of_a_merge")
+    cx.cover("before_merged")
+    cx.observe("got", got.rev_id)
 
 
 def ob_dotted_map(cx):
@@ -300,6 +361,8 @@ def obligations(tier):
         Ob("numeric_specifiers", ob_numeric, [RS], p, to, 1, ["negative", "last", "before", "rejected", "resolved", "nested"],
            bounds="branch with 0..%(maxlast)d revisions, n in -%(maxn)d..%(maxn)d, forms revno:n / n / last:n / before:n / "
                   "before:revno:n / before:before:n / before:before:revno:n / before:last:n" % p),
+        Ob("before_merged_revision", ob_before_merged, [RS], p, to, 1, ["before_merged", "merge_of_a_merge"],
+           bounds="before:revno:a.b(.c) with symbolic components 0..%(maxn)d on a merged revision with 0..3 parents" % p),
         Ob("dotted_specifiers", ob_dotted, [RS], p, to, 1, ["dotted"],
            bounds="revno:a.b[.c] with components 0..%(maxn)d" % p),
         Ob("malformed_specifiers", ob_garbage, [RS], p, to, 2 if q else 1, ["rejected", "dotted", "number"],
